@@ -6,7 +6,7 @@ cd "$(dirname "$0")"
 export GOFLAGS=-mod=mod GOPROXY=off GOSUMDB=off GOTOOLCHAIN=local CGO_ENABLED=0
 cat /repo/go.sum harness/go.sum.extra > harness/go.sum
 (cd harness && go build -tags verif -o bin/vh ./cmd/vh)
-(cd /repo && go build -tags verif -o /verif/harness/bin/goat ./cmd/goat)
+ROOT="$PWD"; (cd /repo && go build -tags verif -o "$ROOT/harness/bin/goat" ./cmd/goat)
 ./harness/bin/vh extract lean/GoatSpec/Extracted.lean
 ./harness/bin/vh skeleton lean/GoatSpec/Skeleton.lean
 (cd lean && lake build GoatSpec goatspec)
